@@ -32,7 +32,8 @@ def main():
     try:
         for pid in pids:
             t0 = time.time()
-            r = sh(["python3", os.path.join(ROOT, "check.py"), pid, "--tier", tier], cwd=ROOT)
+            r = sh(["python3", os.path.join(ROOT, "check.py"), pid, "--tier", tier], cwd=ROOT,
+                   env=dict(os.environ, VERIF_EVIDENCE_DIR=os.path.join(ROOT, ".cache", "seed-evidence")))
             lines = [l for l in r.stdout.splitlines() if l.startswith("VIOLATION") or l.startswith("violation:")]
             v = [l for l in lines if l.startswith("VIOLATION")]
             why = [l for l in r.stdout.splitlines() if l.startswith("violation:")]
